@@ -129,6 +129,11 @@ pub fn run(report: &Report, thorough: bool) -> Evidence {
                     if let Some(r) = shown {
                         // committing the preselected candidate ends the word without learning
                         v.push(Ev::Commit(r.sel().min(r.len().saturating_sub(1))));
+                        // ... and committing another one learns it (the default execution gets the live context's learned
+                        // selections, so the comparison stays meaningful); a lonely suggestion is committed as index 0
+                        if r.len() > 1 {
+                            v.push(Ev::Commit((r.sel() + 1) % r.len()));
+                        }
                     }
                     v
                 },
